@@ -75,6 +75,52 @@ Example C13_window_example :
   can_stale_on_error f [resp_stale_if_error (parse_cc (e_hdr e)); None] (946684925 * second) = false.
 Proof. repeat split; vm_compute; reflexivity. Qed.
 
+(* ---------- history level ---------- *)
+From HC Require Import Run.
+From HC.Proofs Require Import ProvProofs TimeProofs SrcProofs.
+
+(* Along EVERY sequential history from an empty store: a response that is returned marked STALE by an exchange that
+   contacted the origin is the stale-if-error answer — the stored entry e (with a known source: Src) served with a
+   recomputed Age — and this happens only when (1) the decision for e at the start of the exchange was to validate
+   WITHOUT demanding validation (DRevalidate false: no unqualified no-cache, not stale-and-must-revalidate, no request
+   no-cache, no exceeded request max-age — C13_not_when_validation_demanded), (2) the conditional request built from e's
+   validators was sent in this exchange and failed or was answered 500 / 502 / 503 / 504, and (3) CanStaleOnError holds
+   for the stale-if-error of the stored response or of the request at a clock reading of the exchange — which implies
+   the specification's window (C13_within_window). *)
+Theorem C13_history : forall cfg h t0 script k gq obs r,
+  let all := run_history cfg h (init_world t0 script) in
+  let L := flat_map (fun x => x_events x ++ x_bg_events x) all in
+  nth_error h k = Some gq -> nth_error all k = Some obs -> x_result obs = Done (OResp r) -> has_call (x_events obs) ->
+  hvalues status_header (p_hdr r) = [bs "STALE"] ->
+  exists e now a b rep,
+    let f := calculate_freshness e (parse_cc (q_hdr (snd gq))) (parse_cc (e_hdr e)) (x_t0 obs) in
+    Src (GXl L) e /\ decide_hit (snd gq) e (x_t0 obs) = DRevalidate false /\
+    reply_known (GXl L) (with_conditional_headers (snd gq) (e_hdr e)) a b rep /\ sie_failure rep /\
+    can_stale_on_error f [resp_stale_if_error (parse_cc (e_hdr e)); req_stale_if_error (parse_cc (q_hdr (snd gq)))] now = true /\
+    OResp r = stale_if_error_outcome e f now.
+Proof.
+  intros cfg h t0 script k gq obs r all L Hk Ho Hr Hc Hv.
+  destruct (history_safeX L cfg h (init_world t0 script)) as [_ H]; [intros k' e' E; discriminate|apply incl_refl|].
+  exact (after_call_stale _ _ _ _ (proj2 (H k gq obs (OResp r) Hk Ho Hr) Hc) Hv).
+Qed.
+Print Assumptions C13_history.
+
+(* non-vacuity: stored, then a validation that fails 100 s later, inside the stale-if-error window *)
+Example C13_history_nonvacuous :
+  let rep := RResp {| p_status := 200; p_hdr := [(bs "Cache-Control", [bs "max-age=60, stale-if-error=600"]); (bs "Date", [bs "Sat, 01 Jan 2000 00:00:00 GMT"])];
+                      p_body := 0; p_body_ok := true |} in
+  let q := {| q_method := bs "GET";
+              q_url := {| u_scheme := bs "http"; u_host := bs "a.test"; u_path := bs "/x"; u_query := []; u_force_query := false |};
+              q_hdr := [] |} in
+  exists o1 o2 r,
+    run_history {| cfg_swr_timeout := 0 |} [(0, q); (100 * second, q)] (init_world (946684800 * second) [(second, rep, rep); (second, RErr, RErr)]) = [o1; o2] /\
+    x_result o2 = Done (OResp r) /\ has_call (x_events o2) /\ hvalues status_header (p_hdr r) = [bs "STALE"] /\
+    hvalues (bs "Age") (p_hdr r) = [bs "102"].
+Proof.
+  cbv zeta. eexists _, _, _. split; [vm_compute; reflexivity|]. split; [reflexivity|]. split; [|split; reflexivity].
+  rewrite has_callb_spec. vm_compute. reflexivity.
+Qed.
+
 (* ---------- tie to the source: the part of the model this property rests on is what /verif/translate derives from
    /repo's Go source on this run (Generated/*.v are rewritten before every build; see DESIGN.md section 9) ---------- *)
 From HC.Generated Require Import SrcHit SrcStatus.
